@@ -7,7 +7,7 @@
   panic at every step where the code admits one.
 -/
 import Lungo.Proofs.ConcAll
-import Lungo.Proofs.ConcUnshared
+import Lungo.Proofs.ConcHolder
 import Lungo.Proofs.ConcDeadlock
 import Lungo.Proofs.ConcClosed
 import Lungo.Proofs.ConcNoDeadlock
@@ -125,34 +125,44 @@ theorem starting_cleared {n : Nat} {s : State} (h : Reachable n s) (sid : SessId
   | none => simp [hst] at this
   | some a => exact ⟨a, (s2 a sid).1 hst⟩
 
-/-- `mutex_holder_enabled` (DESIGN: `mutex_sections_nonblocking`), configuration "no session is
-    used by two actors" (`ReachableU`: actor `a` only names session `a`): an actor holding `e.mutex`
-    always has an enabled next step — `e.mutex` critical sections never block. -/
-theorem mutex_holder_enabled {n : Nat} {s : State} {a : ActorId} (h : ReachableU n s)
+/-- `mutex_holder_enabled` (DESIGN: `mutex_sections_nonblocking`): in EVERY reachable state — sessions
+    may be shared between actors — an actor holding `e.mutex` has an enabled next step: `e.mutex`
+    critical sections never block.  (Holds since /repo commit 1490243 "read the session before taking
+    the engine lock in Begin"; for the previous order see `old_order_shared_session_deadlock`.) -/
+theorem mutex_holder_enabled {n : Nat} {s : State} {a : ActorId} (h : Reachable n s)
     (hm : s.eng.mutex = some a) : ∃ c s', step s a c = some s' :=
   mutex_holder_enabled_aux h hm
 
-/-- … and the same statement is FALSE when a session is shared by two actors: the reachable state
-    `deadState` (session 5 used by actors 1 and 2; schedule `deadSched`) has actor 2 holding
-    `e.mutex` inside `Engine.Begin` waiting for `s.mutex` (sess.Transaction()), actor 1 holding
-    `s.mutex` inside `Session.AbortTransaction` waiting for `e.mutex` (Engine.Abort), the expiry
-    goroutine waiting for `e.mutex` — and NO step of any actor is enabled: the engine is wedged
-    (lock-order inversion e→s vs s→e; reproduced on the real code, see DESIGN §10 #13). -/
-theorem shared_session_deadlock :
-    ∃ s, Reachable 2 s ∧ s.eng.alive = true ∧ s.eng.mutex = some 2 ∧ (s.loc 2).pc = .bSessLock ∧
-      (s.sess 5).mutex = some 1 ∧ (s.loc 1).pc = .aLock ∧ ∀ (a : Nat) (c : Choice), step s a c = none :=
+/-- WHY THE FIX WAS NEEDED.  With the OLD step order of `Engine.Begin` (`stepOld`, Model/ConcOld.lean:
+    `sess.Transaction()` called while holding `e.mutex`) and one session used by two actors, the
+    reachable state `deadState` (schedule `deadSched`) has actor 2 holding `e.mutex` inside
+    `Engine.Begin` waiting for `s.mutex`, actor 1 holding `s.mutex` inside
+    `Session.AbortTransaction` waiting for `e.mutex` (Engine.Abort), the expiry goroutine waiting
+    for `e.mutex` — and NO step of any actor is enabled: the engine is wedged (lock-order inversion
+    e→s vs s→e; had been reproduced on the real code, DESIGN §10 #13). -/
+theorem old_order_shared_session_deadlock :
+    ∃ s, ReachableOld 2 s ∧ s.eng.alive = true ∧ s.eng.mutex = some 2 ∧ (s.loc 2).pc = .bSessLock ∧
+      (s.sess 5).mutex = some 1 ∧ (s.loc 1).pc = .aLock ∧ ∀ (a : Nat) (c : Choice), stepOld s a c = none :=
   ⟨deadState, dead_reachable, dead_facts.2.2.2.2.2, dead_facts.1, dead_facts.2.1, dead_facts.2.2.1,
     dead_facts.2.2.2.1, dead_stuck⟩
 
-/-- hence `mutex_holder_enabled` cannot be extended from `ReachableU` to `Reachable` -/
-theorem mutex_holder_enabled_fails_shared :
-    ¬ ∀ (n : Nat) (s : State) (a : ActorId), Reachable n s → s.eng.mutex = some a →
-        ∃ c s', step s a c = some s' := by
+/-- hence `mutex_holder_enabled` was false for the old order -/
+theorem old_order_mutex_holder_enabled_fails :
+    ¬ ∀ (n : Nat) (s : State) (a : ActorId), ReachableOld n s → s.eng.mutex = some a →
+        ∃ c s', stepOld s a c = some s' := by
   intro hall
-  obtain ⟨s, hr, _, hm, _, _, _, hstuck⟩ := shared_session_deadlock
+  obtain ⟨s, hr, _, hm, _, _, _, hstuck⟩ := old_order_shared_session_deadlock
   obtain ⟨c, s', hs⟩ := hall 2 s 2 hr hm
   rw [hstuck 2 c] at hs
   cases hs
+
+/-- the same calls under the CURRENT order do not wedge (actor 1's AbortTransaction completes,
+    actor 2 then reads the session, begins and acquires the freed token) -/
+theorem fixed_order_same_calls_progress :
+    ((run (init 2) fixedSched).map fun s =>
+      (s.eng.token, s.eng.holder, (s.loc 1).pc, (s.loc 2).pc, (s.sess 5).mutex)) =
+    some (0, some 2, .idle, .bRelock, none) :=
+  fixed_run
 
 /-- `closed_prompt` (1): once the engine is killed it stays killed -/
 theorem closed_stays_closed {n : Nat} {s s' : State} {a : ActorId} {c : Choice} (_h : Reachable n s)
@@ -202,26 +212,24 @@ theorem closed_begin_returns_closed {n : Nat} {s s' : State} {a : ActorId} (_h :
   subst hs
   simp [State.put, Local.back, Eng.unlock]
 
-/-- `no_deadlock` (configuration: unshared sessions): in every reachable state in which some call is
-    unfinished, some step is enabled that is neither a fault (cancel, store failure/panic, callback
+/-- `no_deadlock`: in EVERY reachable state (sessions may be shared between actors) in which some call
+    is unfinished, some step is enabled that is neither a fault (cancel, store failure/panic, callback
     error/panic), nor the one-minute acquire timeout, nor a new call, nor a ticker event — unless
     the engine is alive, every actor is idle or parked at the token acquire, and the token is held
     by a transaction that a client deliberately keeps open (a session's transaction or a direct
     handle).  (In that last case the 1-minute acquire timeout of `Begin` still ends every waiter.) -/
-theorem no_deadlock {n : Nat} {s : State} (h : ReachableU n s)
+theorem no_deadlock {n : Nat} {s : State} (h : Reachable n s)
     (hun : ∃ a, (s.loc a).pc ≠ .idle ∧ (s.loc a).pc ≠ .xWait ∧ (s.loc a).pc ≠ .xExited) :
     CanStep s ∨ TokenWait s :=
   no_deadlock_aux h hun
 
-/-- … and `no_deadlock` is FALSE for `Reachable` (a session shared by two actors): `deadState`. -/
-theorem no_deadlock_fails_shared :
-    ∃ s, Reachable 2 s ∧ (∃ a, (s.loc a).pc ≠ .idle ∧ (s.loc a).pc ≠ .xWait ∧ (s.loc a).pc ≠ .xExited) ∧
-      ¬ CanStep s ∧ ¬ TokenWait s := by
-  refine ⟨deadState, dead_reachable, ⟨1, ?_⟩, ?_, ?_⟩
+/-- … and `no_deadlock` was FALSE for the old step order of Begin: `deadState` has unfinished calls,
+    no enabled step at all, and actor 1 is not parked at the acquire. -/
+theorem old_order_no_deadlock_fails :
+    ∃ s, ReachableOld 2 s ∧ (∃ a, (s.loc a).pc ≠ .idle ∧ (s.loc a).pc ≠ .xWait ∧ (s.loc a).pc ≠ .xExited) ∧
+      (∀ (a : Nat) (c : Choice), stepOld s a c = none) ∧ ¬ TokenWait s := by
+  refine ⟨deadState, dead_reachable, ⟨1, ?_⟩, dead_stuck, ?_⟩
   · rw [dead_facts.2.2.2.1]; simp
-  · rintro ⟨a, c, _, hs⟩
-    rw [dead_stuck a c] at hs
-    cases hs
   · rintro ⟨_, _, _, hp⟩
     have := hp 1
     rw [dead_facts.2.2.2.1] at this
